@@ -20,9 +20,11 @@ import (
 	"testing"
 
 	"github.com/cenkalti/rain/v2/internal/allocator"
+	"github.com/cenkalti/rain/v2/internal/bufferpool"
 	"github.com/cenkalti/rain/v2/internal/logger"
 	"github.com/cenkalti/rain/v2/internal/metainfo"
 	"github.com/cenkalti/rain/v2/internal/piece"
+	"github.com/cenkalti/rain/v2/internal/piecedownloader"
 	"github.com/cenkalti/rain/v2/internal/storage"
 	"github.com/cenkalti/rain/v2/internal/storage/filestorage"
 	"github.com/cenkalti/rain/v2/internal/urldownloader"
@@ -332,6 +334,30 @@ func (c *checker) checkLayout(l layout, blockSizes []uint32, allReads bool) (acc
 					c.fail("blocks.order", l, "piece %d bs=%d blocks not ascending: %v", pi, bs, blocks)
 					break
 				}
+			}
+			if bs == piece.BlockSize {
+				// the requests the real piece downloader sends to a peer (and the cancels it sends when it gives up) are
+				// exactly those blocks: same offsets, same lengths, nothing inside padding
+				rec := &recPeer{}
+				pd := piecedownloader.New(p, rec, false, bufferpool.Buffer{})
+				pd.RequestBlocks(1 << 20)
+				same := len(rec.req) == len(blocks)
+				for k := 0; same && k < len(blocks); k++ {
+					same = rec.req[k] == [3]uint32{p.Index, blocks[k].Begin, blocks[k].Length}
+				}
+				if !same {
+					c.fail("requests.blocks", l, "piece %d: the piece downloader requests (index,begin,length) %v, the blocks of the piece are %v", pi, rec.req, blocks)
+				}
+				pd.CancelPending()
+				sort.Slice(rec.cancel, func(a, b int) bool { return rec.cancel[a][1] < rec.cancel[b][1] })
+				same = len(rec.cancel) == len(blocks)
+				for k := 0; same && k < len(blocks); k++ {
+					same = rec.cancel[k] == [3]uint32{p.Index, blocks[k].Begin, blocks[k].Length}
+				}
+				if !same {
+					c.fail("requests.cancels", l, "piece %d: the piece downloader cancels (index,begin,length) %v, the blocks requested were %v", pi, rec.cancel, blocks)
+				}
+				c.rep.Add("piece_downloader_requests_compared", int64(len(rec.req)))
 			}
 		}
 		// (c) write, then read every sub-range back
@@ -705,3 +731,12 @@ func createRoundTrip(c *checker, rep *core.Report) {
 	rep.Extra["create_verified_complete"] = nOK
 	_ = sort.Ints
 }
+
+// recPeer records what a piece downloader asks of its peer.
+type recPeer struct{ req, cancel [][3]uint32 }
+
+func (r *recPeer) RequestPiece(index, begin, length uint32) { r.req = append(r.req, [3]uint32{index, begin, length}) }
+func (r *recPeer) CancelPiece(index, begin, length uint32) {
+	r.cancel = append(r.cancel, [3]uint32{index, begin, length})
+}
+func (r *recPeer) EnabledFast() bool { return true }
